@@ -9,7 +9,8 @@
    every interleaving, every fault script, any length, any channel capacity. *)
 From SV Require Import Model.Common Model.Client Model.ClientAccept Spec.ClientSpec
      Proofs.ClientBase Proofs.ClientSafety Proofs.ClientHistory Proofs.ClientOrder Proofs.ClientTheorems
-     Proofs.ClientAcceptProofs Proofs.ClientLiveness Proofs.ClientCorollaries.
+     Proofs.ClientAcceptProofs Proofs.ClientLiveness Proofs.ClientCorollaries
+     Model.AckParse Proofs.AckParseProofs.
 From Coq Require Import Permutation.
 
 (* 1. Whenever a chunk is reported delivered, the run contains before that a completed SendChunk of this chunk
@@ -149,6 +150,17 @@ Theorem C02_accepted_trace_safe :
      Permutation (rev (h_taken s)) (consumed_of os ++ handed_of os) /\ NoDup (consumed_of os ++ handed_of os)).
 Proof. exact accepted_trace_lemma. Qed.
 Print Assumptions C02_accepted_trace_safe.
+
+(* 6. (widening: the fluentdforward wrapper) The acknowledgement a Fluentd sends for chunk id, the msgpack map
+      {"ack": id} with the shortest string header, is read back by the model of ReadChunkAck (vmihailenco struct
+      decoding of forwardprotocol.Ack) as exactly that id, whatever follows on the connection; ids up to 2^32-1 bytes.
+      (Responses without an "ack" field - {}, nil, another key - are read as the EMPTY id, i.e. as an ACK of the chunk
+      the acknowledger is waiting for: Examples ack_empty_map / ack_nil / ack_other_key in Proofs/AckParseProofs.v.) *)
+Theorem C02_ack_roundtrip :
+  forall (id rest : bytes),
+  (N.of_nat (length id) < 4294967296)%N -> parse_ack (encode_ack id ++ rest) = PAck id rest.
+Proof. exact ack_roundtrip_lemma. Qed.
+Print Assumptions C02_ack_roundtrip.
 
 (* Non-vacuity: a concrete run with a failed send, a reconnect, a retransmission in id order, an id ACK and an
    empty-id ACK satisfies every hypothesis used above. *)
